@@ -140,6 +140,13 @@ def check(run: Run) -> None:
         for align in (False, True):
             cases.append(Case(f"struct S {{ {base} }};", align=align, compiled=rng.random() < 0.5, history=hist))
 
+    # histories: the pointer width is reconfigured between two definitions that use pointers to the same target types
+    for pw1, pw2 in (("uint64", "uint32"), ("uint16", "uint64"), ("uint32", "uint8")):
+        for tgt in ("char", "uint32", "S"):
+            for align in (False, True):
+                cases.append(Case(f"struct S {{ uint8 a; }}; struct first {{ {tgt} *p; uint8 k; }};", align=align, pointer=pw1, compiled=rng.random() < 0.5,
+                                  history=[("set_pointer", pw2), ("load", f"struct main {{ uint8 k; {tgt} *p; uint16 t; {tgt} *q[2]; }};")]))
+
     items, failures, n_ct, n_ref, n_sizes = [], 0, 0, 0, 0
     explained: set = set()
     for c in cases:
